@@ -880,7 +880,17 @@ pub fn search_case(o: SearchOpts) -> BoxedStrategy<Case> {
             if no_empty {
                 strip_empty(&mut patterns, &alpha);
             }
-            let haystack = realize_haystack(&pieces, &patterns, &alpha, size_class);
+            let mut haystack = realize_haystack(&pieces, &patterns, &alpha, size_class);
+            // keep the reference model affordable: (total pattern bytes) x
+            // (haystack length) is bounded; very large pattern sets get
+            // proportionally shorter haystacks (never below 48 bytes)
+            let total: usize = patterns.iter().map(|p| p.len()).sum::<usize>().max(1);
+            if total.saturating_mul(haystack.len()) > 6_000_000 {
+                haystack.truncate((6_000_000 / total).max(48));
+            }
+            if haystack.len() > 50_000 {
+                haystack.truncate(50_000);
+            }
             let span = realize_span(sr, haystack.len());
             let sub = match plist {
                 PatList::General(_) => "general",
